@@ -28,6 +28,10 @@ use crate::REQUEST_FRAMING_BYTES;
 
 const HEX: Encoding = HEXLOWER_PERMISSIVE;
 
+/// Nested messages deeper than this are displayed as hex instead of being decoded further.
+/// Genuine Roughtime messages nest three levels deep (response, CERT, DELE).
+const MAX_DISPLAY_DEPTH: usize = 8;
+
 ///
 /// A Roughtime protocol message; a map of u32 tags to arbitrary byte-strings.
 ///
@@ -336,9 +340,9 @@ impl RtMessage {
             result.push_str(&value.len().to_string());
             result.push_str(") = ");
 
-            // The value of a nested tag is untrusted input and may not be a valid message,
-            // in which case it is shown as hex like any other value
-            let nested_msg = if tag.is_nested() {
+            // The value of a nested tag is untrusted input: it may not be a valid message or
+            // may be nested arbitrarily deep, in which case it is shown as hex like any other value
+            let nested_msg = if tag.is_nested() && indent_level < MAX_DISPLAY_DEPTH {
                 RtMessage::from_bytes(value).ok()
             } else {
                 None
